@@ -39,6 +39,15 @@ def run(chk):
     from . import c08
     chk.rule("T-PAIR/refresh", "refresh_memory_dependent_devices re-reads every screen page of the machine (shared with C08)")
     c08.refresh_covers_banks(chk, prog, cc.Names(prog))
+    # the 7FFD byte save writes is the controller's record of the latch (read_7ffd); that record is the value *in
+    # effect* only while every paging write keeps record, memory map and lock together: C06's rule on write_7ffd
+    # (a locked write changes nothing - not even the record; an accepted one stores val and remaps from its bits)
+    from . import c06
+    from zx.report import FilteredCheck
+    chk.rule("T-GUARD (shared with C06)", "write_7ffd: the recorded latch changes only together with the mapping it describes (nothing changes while paging is locked)")
+    fc = FilteredCheck(chk, lambda k: "ZXController::write_7ffd" in k, "c06")
+    c06.write_7ffd(fc, prog, cc.Names(prog))
+    chk.check(fc.forwarded >= 4, "T-GUARD/ZXController::write_7ffd/judged", "the paging-write rule was judged on %d obligations only" % fc.forwarded)
     return chk.finish(EXPL)
 
 
